@@ -1806,7 +1806,11 @@ aiff_read_chanmap (SF_PRIVATE * psf, unsigned dword)
 
 		free (psf->channel_map) ;
 
-		if ((psf->channel_map = malloc (chanmap_size)) == NULL)
+		/*
+		** SFC_GET_CHANNEL_MAP_INFO copies one entry per channel of the file, which can be
+		** more than the layout describes (or than was known when this chunk was read).
+		*/
+		if ((psf->channel_map = calloc (SF_MAX_CHANNELS, sizeof (psf->channel_map [0]))) == NULL)
 			return SFE_MALLOC_FAILED ;
 
 		memcpy (psf->channel_map, map_info->channel_map, chanmap_size) ;
